@@ -125,13 +125,13 @@ def _grid(start, stop, dt):
 
 def plan(tier, verif_seed):
     i = 0
-    n_edit = 1500 if tier == "quick" else 10**9
+    n_edit = 3200 if tier == "quick" else 10**9
     n_race = 3000 if tier == "quick" else 0
     # directed races: every ordered subset of size >= 2 under the default (serial) schedule
     for _ in range(n_race):
         yield {"i": i, "kind": "race", "seed": derive_seed(verif_seed, PROPERTY, "race", i), "keep_sample": i < 1}
         i += 1
-    for j in range(min(n_edit, 1500)):
+    for j in range(min(n_edit, 3200)):
         yield {"i": i, "kind": "edit", "seed": derive_seed(verif_seed, PROPERTY, "edit", i), "keep_sample": j < 1}
         i += 1
     for j in range(300 if tier == "quick" else 3000):
@@ -205,7 +205,7 @@ def generate(spec):
                 # (when the history reads through Element.plot) a plot with a step of its own: looking at an element on another
                 # grid is an observation, not an edit
                 ops[-1]["plot_dt"] = rng.choice([x for x in (2.0, 0.5, 0.25, 0.1) if x != dt])
-        elif r < 0.83:
+        elif r < 0.80:
             ops.append({"op": "run", "equations": rng.sample(ELEMS, rng.randint(1, 4))})
         elif r < 0.90:
             # an edit that lands WHILE a run is in flight (its own task, line-level schedule): whatever the run itself
